@@ -107,9 +107,13 @@ impl Renderer {
 			// NaN is not ordered, so `clamp` passes it through unchanged;
 			// never hand a NaN sample to the device
 			if frame.left.is_nan() {
+				#[cfg(kira_verif)]
+				crate::verif::count_nan_scrubbed();
 				frame.left = 0.0;
 			}
 			if frame.right.is_nan() {
+				#[cfg(kira_verif)]
+				crate::verif::count_nan_scrubbed();
 				frame.right = 0.0;
 			}
 			frame.left = frame.left.clamp(-1.0, 1.0);
